@@ -1,15 +1,37 @@
 (* C01 capstone: one whole TCP flow (Model/EndToEnd.v) is byte-transparent, by COMPOSITION of the codec, transport,
-   pump and handshake facts.
+   pump, exit-path and handshake facts.  Nothing here is `_partial` and nothing was refuted (see the end of this comment).
 
-   A. transports      transport_run_segments   WebSocket delivery = stream delivery of the payloads (ws_run_is_framed_run)
-                      run_app / run_items_prefix   what has been decoded at any time is a prefix of the final item list
-                      first_read_ok_first_big   the encoder's own messages satisfy the Shadowsocks-2022 first-read condition
-   B. pumps           pump_reads_prefix, pump_delivered_prefix, pump_closed_delivers_all  (Model/Relay fed by given items)
-   C. per protocol    e2e_request_<proto>, e2e_answer_<proto>  (any reads, any delivery)
-                      from SsTcpStreamReq / SsTcpStreamResp / VmessStream / TrojanFacts
-   D. whole flow      e2e_target_exact_*, e2e_request_bytes_exact_*, e2e_response_bytes_exact_*, e2e_ws_same_as_stream,
-                      c01_flow_transparent (record flow_ok), handshake-level corollaries
-   E. Examples        one concrete flow per protocol family, evaluated by vm_compute. *)
+   A. transports      transport_run_segments      a WebSocket delivery = a stream delivery of the message payloads
+                                                  (ws_run_is_framed_run); transport_ws_same_as_stream
+                      run_app, run_items_prefix   what has been decoded at any time is a prefix of the final item list
+                      first_read_ok_first_big     a first segment holding salt + fixed header satisfies the Shadowsocks-2022
+                                                  first-read condition (first_read_ok, Model/EndToEnd.v)
+   B. pumps           Pumps.pump_reads_prefix / pump_delivered_prefix / pump_closed_delivers_all: Model/Relay fed by a stream
+                      that yields given items (feeds, no_stream_error); pumps_deliver packages them (delivered_exactly_once)
+   C. per protocol    request_transparent / answer_transparent: any writes, any delivery
+                      e2e_request_trojan, e2e_answer_trojan                          (TrojanFacts.trojan_header_segmentation)
+                      e2e_request_ss2022 / _sslegacy / _ss2022_identity, e2e_answer_*  (SsTcpStreamReq / SsTcpStreamResp)
+                      e2e_request_vmess, e2e_answer_vmess                              (VmessStream)
+   D. whole flow      proto_ok, req_delivery_ok, ans_delivery_ok, info_of; proto_request_transparent, proto_answer_transparent
+                      own_ws_request_delivery_ok / own_ws_answer_delivery_ok   (the encoder's own WebSocket messages need no
+                                                                                first-read hypothesis)
+                      flow_side_ok, flow_ok, c01_flow_transparent             THE summary theorem
+                      e2e_ws_same_as_stream                                   the transport does not matter
+                      flow_request_exact, flow_answer_exact                   codecs + pumps
+                      e2e_target_exact_<p>, e2e_request_bytes_exact_<p>, e2e_response_bytes_exact_<p>
+                                                                              p = trojan | vmess | sslegacy | ss2022 | ss2022_identity
+                      e2e_target_closes_after_answering                       + ExitPathFacts
+                      c01_socks5_connect_flow, c01_http_connect_flow (+ _host_port), c01_plain_http_flow (+ _default_port)
+                      handshake_target_acceptable, c01_flow_transparent_bytes
+                      *_meaning                                               the bundled hypotheses spelled out (for the pins)
+   E. Module E2EExamples   one concrete flow per protocol family (toy primitives): every hypothesis of flow_ok discharged,
+                      the flow evaluated by vm_compute; ss22_first_read_needed: the first-read condition is a genuine hypothesis.
+
+   Composition steps that were checked for refutation and hold for the faithful models: the EMPTY first message of
+   relay_tcp_then yields ConnectTcp [] target in every protocol (Shadowsocks: header with an empty payload and padding;
+   VMess: the sealed header alone; Trojan: the head alone) and an empty payload0 is what the server sends first to the
+   target; early data behind the local handshake stays in the stream and is relayed; VMess TCP flows are in stream mode
+   (rh_cmd = CmdTcp) in both directions; the two directions of a Shadowsocks connection share only the codec RECORD. *)
 From Coq Require Import NArith List Bool Lia Arith ZifyBool ZifyN ZifyNat.
 From Octo Require Import Base.Bytes Crypto.Prims Lib.Framed Lib.WsFramed Model.Address Model.SsChunk Model.SsTcp
                          Model.Trojan Model.Vmess Model.Handshake Model.EndToEnd.
